@@ -17,6 +17,7 @@ type Canary struct {
 	Dir      string // private directory
 	Cwd      string // Dir/cwd, working directory of the worker
 	Secret   string // Dir/secret.zy : readable zygo text defining c08leak = TokRead
+	SymFile  string // Cwd/c08sym : a copy of the secret file reachable by a bare symbol (relative path)
 	Existing string // Dir/existing.txt : must keep its content
 	Out      string // Dir/out.txt : must stay absent
 	Pwned    string // Dir/pwned : created only by the canary shell command
@@ -31,6 +32,7 @@ type Canary struct {
 }
 
 const (
+	symFileName = "c08sym"
 	envName = "C08_CANARY_ENV"
 	newVar  = "C08_CANARY_NEWVAR"
 )
@@ -38,7 +40,7 @@ const (
 // NewCanary derives all names and tokens deterministically from dir and tag.
 func NewCanary(dir, tag string) *Canary {
 	c := &Canary{Dir: dir, Cwd: filepath.Join(dir, "cwd"),
-		Secret: filepath.Join(dir, "secret.zy"), Existing: filepath.Join(dir, "existing.txt"),
+		Secret: filepath.Join(dir, "secret.zy"), SymFile: filepath.Join(dir, "cwd", symFileName), Existing: filepath.Join(dir, "existing.txt"),
 		Out: filepath.Join(dir, "out.txt"), Pwned: filepath.Join(dir, "pwned"),
 		EnvName: envName, NewVar: newVar,
 		TokRead: "ZYGREAD" + tag + "Q", TokEnv: "ZYGENVV" + tag + "Q", TokKeep: "ZYGKEEP" + tag + "Q", TokStdin: "ZYGSTDIN" + tag + "Q"}
@@ -69,7 +71,15 @@ func (c *Canary) Install() error {
 	}
 	ents, _ = os.ReadDir(c.Cwd)
 	for _, e := range ents {
-		os.RemoveAll(filepath.Join(c.Cwd, e.Name()))
+		if e.Name() != symFileName {
+			os.RemoveAll(filepath.Join(c.Cwd, e.Name()))
+		}
+	}
+	if b, err := os.ReadFile(c.SymFile); err != nil || string(b) != c.secretText() {
+		os.RemoveAll(c.SymFile)
+		if err := os.WriteFile(c.SymFile, []byte(c.secretText()), 0644); err != nil {
+			return err
+		}
 	}
 	if b, err := os.ReadFile(c.Secret); err != nil || string(b) != c.secretText() {
 		os.RemoveAll(c.Secret)
@@ -110,7 +120,7 @@ func sortedEnv() []string {
 // modification below it changes a directory or file modification time or size.
 func (c *Canary) stamp() string {
 	var sb strings.Builder
-	for _, p := range []string{c.Dir, c.Cwd, c.Secret, c.Existing, c.Pwned} {
+	for _, p := range []string{c.Dir, c.Cwd, c.Secret, c.SymFile, c.Existing, c.Pwned} {
 		st, err := os.Lstat(p)
 		if err != nil {
 			sb.WriteString("absent;")
@@ -161,9 +171,14 @@ func (c *Canary) ObserveFiles() (effects []string, detail []string) {
 			add("file_write", "created "+e.Name())
 		}
 	}
+	if b, err := os.ReadFile(c.SymFile); err != nil || string(b) != c.secretText() {
+		add("file_write", "secret file in the working directory modified or removed")
+	}
 	ents, _ = os.ReadDir(c.Cwd)
 	for _, e := range ents {
-		add("file_write", "created cwd/"+e.Name())
+		if e.Name() != symFileName {
+			add("file_write", "created cwd/"+e.Name())
+		}
 	}
 	return
 }
